@@ -92,6 +92,11 @@ def quick_agree(f, m, out, where):
             out.append(("C05:contents-differ", "%s: as_integer %#x model %#x (w=%d)" % (where, n, m.n, m.w)))
         if not (isinstance(n, int) and 0 <= n < (1 << m.w)):
             out.append(("C05:value-out-of-range", "%s: %r not in [0, 2^%d)" % (where, n, m.w)))
+        if hasattr(f, "error") and type(f).__module__ == "dali.frame":
+            # a backward frame received with a framing error stays one, a clean one stays clean, whatever is written to it
+            want = type(f).__name__ == "BackwardFrameError"
+            if f.error is not want:
+                out.append(("C05:backward-frame-error-flag", "%s: a %s reports error=%r" % (where, type(f).__name__, f.error)))
         if hasattr(f, "is_reserved"):
             # ForwardFrame docstring: 20 and 32 data bits are reserved, anything but 16/20/24/32 is proprietary
             if f.is_reserved is not (m.w in (20, 32)) or f.is_proprietary is not (m.w not in (16, 20, 24, 32)):
